@@ -1,4 +1,4 @@
-import SudsModel.Xsd.Schema
+import SudsModel.Lemmas.RoundTrip
 /-!
 C02 — how decoded children are collected and what a node becomes (`umx/core.py`
 `append_children` / `postprocess`, `umx/typed.py`, `umx/encoded.py`), for every sequence of
@@ -252,6 +252,64 @@ theorem reply_composite (env : Env) (fuel : Nat) (op : Op) (body : List Info) (a
     ∃ fields, reply env fuel op none body = .obj "reply" fields := by
   unfold reply
   cases hst : op.style <;> simp_all <;> exact ⟨_, rfl⟩
+
+/-! ### round trip with the C01 marshaller -/
+
+/-- **Marshal, then decode, gives the value back** — for every flat struct type (any number of
+members with builtin types, distinct names, single or repeating, any form and namespace), every
+assignment of lexical texts to its members (absent members, single values, lists of any length) and
+every schema environment in which the type has those members and no attributes: the element the
+marshaller writes decodes to an object of that type holding, in schema order, each present
+single member's text under its type and each present repeating member's texts as a list. -/
+theorem flat_struct_roundtrip (env : Env) (henc : env.encoded = false) (f g : Nat) (name : String)
+    (ns : Option String) (k : Key) (ffs : List FlatField) (ok : FlatOK ffs)
+    (hm : members env (env.types.length + 1) k = ffs.map fun ff => (ff.m, ff.declNs))
+    (ha : attrsOf env (env.types.length + 1) k = []) (hne : ∃ ff ∈ ffs, ff.texts ≠ []) :
+    (marshal env (g + 3) name ns (.complex k) false (.obj none (fieldsOf ffs))).map
+        (decode env (f + 2) (.complex k) false) =
+      [.obj k.2 (ffs.flatMap fun ff => ff.group.entry)] := by
+  rw [marshal_flat env henc g name ns k ffs ok hm ha]
+  simp only [List.map_cons, List.map_nil, decode_flat env f name ns k ffs ok hm ha]
+  have hdata : (ffs.flatMap fun ff => ff.group.entry) ≠ [] := by
+    obtain ⟨ff, hff, ht⟩ := hne
+    intro he
+    have hall := List.flatMap_eq_nil_iff.mp he ff hff
+    cases htx : ff.texts with
+    | nil => exact ht htx
+    | cons s rest =>
+      simp only [FlatField.group, Group.entry, htx, List.map_cons] at hall
+      split at hall
+      · simp at hall
+      · split at hall <;> simp at hall
+  cases hd : (ffs.flatMap fun ff => ff.group.entry) with
+  | nil => exact absurd hd hdata
+  | cons e es => simp [postprocess]
+
+/-- the value with every member absent is the content-free element; suds decodes it to the empty
+string (the alphabet of the correspondence has no content-free objects) -/
+theorem flat_struct_all_absent (env : Env) (henc : env.encoded = false) (f g : Nat) (name : String)
+    (ns : Option String) (k : Key) (ffs : List FlatField) (ok : FlatOK ffs)
+    (hm : members env (env.types.length + 1) k = ffs.map fun ff => (ff.m, ff.declNs))
+    (ha : attrsOf env (env.types.length + 1) k = []) (hall : ∀ ff ∈ ffs, ff.texts = []) :
+    (marshal env (g + 3) name ns (.complex k) false (.obj none (fieldsOf ffs))).map
+        (decode env (f + 2) (.complex k) false) = [.text "" ""] := by
+  rw [marshal_flat env henc g name ns k ffs ok hm ha]
+  simp only [List.map_cons, List.map_nil, decode_flat env f name ns k ffs ok hm ha]
+  have h1 : (ffs.flatMap fun ff => ff.group.entry) = [] := by
+    apply List.flatMap_eq_nil_iff.mpr
+    intro ff hff
+    simp [FlatField.group, Group.entry, hall ff hff]
+  have h2 : ffs.flatMap (FlatField.kids env) = [] := by
+    apply List.flatMap_eq_nil_iff.mpr
+    intro ff hff
+    simp [FlatField.kids, hall ff hff]
+  simp [h1, h2, postprocess]
+
+/-- Non-vacuity: a struct with a single and a repeating member meets `FlatOK`. -/
+example : FlatOK [⟨⟨"name", .builtin "string", 1, false, false, true, false, none⟩, 0, "string", ["n"]⟩,
+                  ⟨⟨"tag", .builtin "int", 0, true, true, false, false, none⟩, 0, "int", ["1", "2", "3"]⟩] :=
+  ⟨by decide, by intro ff h; simp at h; rcases h with rfl | rfl <;> rfl,
+   by intro ff h hu; simp at h; rcases h with rfl | rfl <;> simp_all⟩
 
 /-! Non-vacuity / worked example on the environment of a derived type. -/
 def exEnv2 : Env :=
